@@ -121,7 +121,7 @@ func rpcExchange(lc *liveConn, xid, prog, vers, proc, flavor uint32, args []byte
 	var frame bytes.Buffer
 	binary.Write(&frame, binary.BigEndian, uint32(0x80000000)|uint32(m.Len()))
 	frame.Write(m.Bytes())
-	lc.c.SetDeadline(time.Now().Add(3 * time.Second))
+	lc.c.SetDeadline(time.Now().Add(10 * time.Second))
 	if _, err := lc.c.Write(frame.Bytes()); err != nil {
 		return outClosed, 0, 0, "write: " + err.Error()
 	}
@@ -131,7 +131,7 @@ func rpcExchange(lc *liveConn, xid, prog, vers, proc, flavor uint32, args []byte
 		if _, err := io.ReadFull(lc.c, hdr[:]); err != nil {
 			var ne net.Error
 			if errors.As(err, &ne) && ne.Timeout() {
-				return outTimeout, 0, 0, "no answer within 3 s"
+				return outTimeout, 0, 0, "no answer within 10 s"
 			}
 			return outClosed, 0, 0, "read: " + err.Error()
 		}
